@@ -225,9 +225,28 @@ void selfops()
   same_set_checks<N, W>(a, "self-op result == rebuilt", "self-op result != rebuilt is false", "hash(self-op result) == hash(rebuilt)");
   verif_reach("selfops-end");
 }
+
+// init with a function whose result is only CONVERTIBLE to bool (the documentation asks for "callable as bool(element_type)"):
+// a non-zero word such as `flags & (1 << i)` must set exactly enumerator i
+template <unsigned N, typename W>
+void init_nonbool()
+{
+  using E = typename en<N>::type;
+  sset const A{fresh_set("A_lo", "A_hi", N)};
+  bf<N, W> const a{fcppt::container::bitfield::init<bf<N, W>>([&A](E const e) -> std::uint64_t {
+    unsigned const i{static_cast<unsigned>(e)};
+    return i < 64 ? (A.lo & (std::uint64_t{1} << i)) : (A.hi & (std::uint64_t{1} << (i - 64)));
+  })};
+  unsigned const e{verif_u8("e")};
+  verif_assume(e < N);
+  verif_assert(a.get(static_cast<E>(e)) == A.has(e), "init with a truthy (non-bool) function result sets exactly the enumerators for which it is non-zero");
+  verif_assert(a == build<N, W>(A), "init with a truthy function == init with the bool function");
+  verif_reach("init_nonbool-end");
+}
 }
 
 #define INST(N, W, WN) \
+  VERIF_HARNESS(h_initnb_##N##_##WN) { init_nonbool<N, W>(); } \
   VERIF_HARNESS(h_self_##N##_##WN) { selfops<N, W>(); } \
   VERIF_HARNESS(h_ops_##N##_##WN) { ops<N, W>(); } \
   VERIF_HARNESS(h_ops2_##N##_##WN) { ops2<N, W>(); } \
@@ -239,6 +258,7 @@ void selfops()
 //@harness h_setget_{N}_{W} for N in 1,3,8,9,17 for W in u8,u16,u32,u64 tier=quick loop=140
 //@harness h_ops2_{N}_{W} for N in 3,9 for W in u8,u32 tier=quick loop=140
 //@harness h_self_{N}_{W} for N in 1,3,8,9,17,33 for W in u8,u16,u32,u64 tier=quick loop=140
+//@harness h_initnb_{N}_{W} for N in 3,9,17,33 for W in u8,u32,u64 tier=quick loop=140
 // enumerators beyond bit 31 of a 64-bit word (and beyond the first word of narrower ones) already in the quick tier
 //@harness h_setget_33_{W} for W in u32,u64 tier=quick loop=140
 //@harness h_rel_33_{W} for W in u32,u64 tier=quick loop=140
